@@ -43,7 +43,46 @@ ValueFns == {"ty.c2l", "ty.l2c", "ty.adj_i64", "ty.adj_u64", "ty.adj_i128", "ty.
 RoundTrips == {"ty.roundtrip", "kamino.roundtrip", "solend.roundtrip", "drift.roundtrip"}
 StaleFns == {"kamino.stale", "solend.stale", "drift.stale"}
 
+\* ---- composition of a reserve's total supply (the numerator of its exchange rate) -------------------------
+P60 == BPow2(60)
+WADB == BPow10(18)
+I80MAXBITS == BSub(BPow2(127), BOne)
+\* Kamino: available + borrowed - protocol fees - referrer fees - pending referrer fees (the four U68F60 terms are
+\* cut to 48 fractional bits first)
+KaminoTotalExact(a) == RAdd(ROfBig(a[1]), RMake(BSub(BSub(BSub(a[2], a[3]), a[4]), a[5]), P60))
+KaminoTotalBits(a) == BSub(BSub(BSub(BAdd(BMul(a[1], TWO48), BFloorDiv(a[2], BPow2(12))), BFloorDiv(a[3], BPow2(12))), BFloorDiv(a[4], BPow2(12))), BFloorDiv(a[5], BPow2(12)))
+\* Solend: available + borrowed - protocol fees (two 10^18-scaled terms)
+WadBits(x) == BFloorDiv(BMul(x, TWO48), WADB)
+WadDefined(x) == BLe(BFloorDiv(x, WADB), BSub(BPow2(79), BOne))
+SolendTotalBits(a) == BSub(BAdd(BMul(a[1], TWO48), WadBits(a[2])), WadBits(a[3]))
+InI80(bits) == BLe(BNeg(BPow2(127)), bits) /\ BLe(bits, I80MAXBITS)
+
+C20Compose(f, a, r, line) ==
+  /\ (f = "kamino.sf") => Chk("C20", "u68f60_to_i80f48_drops_only_the_low_12_bits", line, Def(r) /\ r.v = BFloorDiv(a[1], BPow2(12)), [fn |-> f, args |-> a])
+  /\ (f = "kamino.total") =>
+       /\ (Def(r)) => Chk("C20", "total_supply_is_the_sum_of_its_components", line,
+                          r.v = KaminoTotalBits(a) /\ RLe(RAbs(RSub(R(r.v), KaminoTotalExact(a))), RMul(RInt(4), U)), [fn |-> f, args |-> a, got |-> r.v])
+       /\ (~InI80(KaminoTotalBits(a))) => Chk("C20", "out_of_range_result_fails_closed", line, ~Def(r), [fn |-> f, args |-> a])
+  /\ (f = "solend.wad") =>
+       /\ (Def(r)) => Chk("C20", "wad_conversion_exact_to_48_bits", line, WadDefined(a[1]) /\ r.v = WadBits(a[1]), [fn |-> f, args |-> a, got |-> r.v])
+       /\ (~WadDefined(a[1])) => Chk("C20", "out_of_range_result_fails_closed", line, ~Def(r), [fn |-> f, args |-> a])
+  /\ (f = "solend.total") =>
+       /\ (Def(r)) => Chk("C20", "total_supply_is_the_sum_of_its_components", line, r.v = SolendTotalBits(a), [fn |-> f, args |-> a, got |-> r.v])
+       /\ (~WadDefined(a[2]) \/ ~WadDefined(a[3]) \/ ~InI80(SolendTotalBits(a))) => Chk("C20", "out_of_range_result_fails_closed", line, ~Def(r), [fn |-> f, args |-> a])
+  /\ (f = "kamino.full.c2l" /\ Def(r) /\ ~BIsZero(a[7]) /\ RIsPos(KaminoTotalExact(SubSeq(a, 2, 6)))) =>
+       LET tot == KaminoTotalExact(SubSeq(a, 2, 6))
+           sc == BPow10(BToInt(a[8]))
+           colLo == RMake(BFloorDiv(BMul(a[7], TWO48), sc), TWO48)
+           rateUp == IF RIsZero(colLo) THEN RZero ELSE RDiv(RDiv(RAdd(tot, RMul(RInt(4), U)), ROfBig(sc)), colLo)
+       IN Chk("C20", "never_overstates_value", line, RLe(ROfBig(r.v), RMul(ROfBig(a[1]), RDiv(tot, ROfBig(a[7])))),
+              [fn |-> f, args |-> a, got |-> r.v, explained_by_scaled_supply_truncation |-> RLe(ROfBig(r.v), RMul(ROfBig(a[1]), rateUp))])
+
+\* a result is never a wrapped value: with non-negative operands it is non-negative
+NonNegArgs(a) == \A i \in DOMAIN a : ~BIsNeg(a[i])
+
 C20One(f, a, r, line) ==
+  /\ C20Compose(f, a, r, line)
+  /\ (f \in ValueFns /\ Def(r) /\ NonNegArgs(a)) => Chk("C20", "no_wrapped_value", line, ~BIsNeg(r.v), [fn |-> f, args |-> a, got |-> r.v])
   /\ (f \in ValueFns) =>
        LET ref == IntegRef(f, a) rng == RangeOf(f) IN
        /\ (~ref.ok) => Chk("C20", "zero_divisor_or_unsupported_decimals_fail_closed", line, ~Def(r), [fn |-> f, args |-> a])
